@@ -169,6 +169,16 @@ def case(job):
                 bad("ensure_negative_parity-moves-pixels", "ensure_negative_parity moved pixels on the sky or is not idempotent")
             if kind in ("image", "image-pil") and not np.array_equal(np.asarray(obj.asarray()), data[::-1] if flipped else data):
                 bad("ensure_negative_parity-data", "data not consistent with the WCS after ensure_negative_parity")
+            # histories on the one instance: ensure, flip, ensure (and flip, ensure): always -1 afterwards
+            obj.flip_parity()
+            if obj.get_parity_sign() != 1:
+                bad("flip-after-ensure", "flip_parity() after ensure_negative_parity() left parity %r" % obj.get_parity_sign())
+            obj.ensure_negative_parity()
+            if obj.get_parity_sign() != -1:
+                bad("ensure_negative_parity-after-flip", "ensure_negative_parity(), flip_parity(), ensure_negative_parity() left parity %r" % obj.get_parity_sign())
+            rag, decg = world(obj.wcs, xs.ravel(), ((h_ - 1 - ys) if flipped else ys).ravel())
+            if ok.any() and sep_deg(ra0[ok], dec0[ok], rag[ok], decg[ok]).max() > 1e-9:
+                bad("ensure_negative_parity-after-flip", "the ensure/flip/ensure history moved pixels on the sky")
         except Exception as e:
             bad("raises:%s" % type(e).__name__, repr(e))
     part.sample(cfg)
